@@ -16,7 +16,18 @@ import (
 )
 
 const verifDir = "/verif"
-const repoDir = "/repo"
+// repoDir: the tree under verification. The registered checks always use /repo;
+// GOVC_REPO / GOVC_OUT exist only so that the seeded-change runner can work on
+// several scratch copies in parallel (tools/run_all_seeded_par.sh).
+var repoDir = envOr("GOVC_REPO", "/repo")
+var outDir = envOr("GOVC_OUT", verifDir)
+
+func envOr(k, def string) string {
+	if v := os.Getenv(k); v != "" {
+		return v
+	}
+	return def
+}
 
 type UnitCfg struct {
 	Key   string `json:"key"`   // full function key, or key+"$litN"
@@ -606,7 +617,7 @@ func cmdCheck(args []string) int {
 	}
 
 	violations := 0
-	replayDir := filepath.Join(verifDir, "replays", id)
+	replayDir := filepath.Join(outDir, "replays", id)
 	os.MkdirAll(replayDir, 0o755)
 	sort.Strings(knownHit)
 	for _, k := range dedup(knownHit) {
@@ -747,9 +758,9 @@ func cmdCheck(args []string) int {
 		}
 		cov["samples"] = bs
 	}
-	os.MkdirAll(filepath.Join(verifDir, "evidence"), 0o755)
+	os.MkdirAll(filepath.Join(outDir, "evidence"), 0o755)
 	eb, _ := json.MarshalIndent(ev, "", " ")
-	if err := os.WriteFile(filepath.Join(verifDir, "evidence", id+".json"), eb, 0o644); err != nil {
+	if err := os.WriteFile(filepath.Join(outDir, "evidence", id+".json"), eb, 0o644); err != nil {
 		fatal("evidence: %v", err)
 	}
 	fmt.Printf("%s %s: %d units, %d/%d obligations discharged, %d known findings, %d violations, %.1fs\n", id, tier, len(units), nDis, nObl, len(dedup(knownHit)), violations, time.Since(start).Seconds())
